@@ -57,6 +57,10 @@ pub fn length_sweep(ctx: &mut Ctx) {
     lead_byte_probes(ctx);
     confusable_probes(ctx);
     unreached_probes(ctx);
+    illformed_probes(ctx);
+    element_reader_probes(ctx);
+    pipeline_probes(ctx);
+    number_text_probes(ctx);
     if prop == "C02" || prop == "C06" {
         return;
     }
@@ -123,6 +127,43 @@ pub fn length_sweep(ctx: &mut Ctx) {
                 }
             }
             _ => {}
+        }
+        // look-alike twins: n-1 copies of one value and, at the distinguished position, a DIFFERENT value that
+        // shares its spelling, its double or its string form (a de-duplicating, memoising or hashing traversal
+        // keyed on text / on the double / on a type-blind fingerprint conflates the two - from some length on)
+        if n <= 300 && ["C13", "C14", "C15"].contains(&prop.as_str()) {
+            for (filler, marked) in al::lookalike_twins() {
+                for p in positions(n).into_iter().filter(|p| n <= 40 || *p == 0 || *p == n - 1 || *p == n / 2) {
+                    ctx.edge();
+                    let coll: Vec<Value> = (0..n).map(|i| if i == p { marked.clone() } else { filler.clone() }).collect();
+                    let plain: Vec<Value> = vec![filler.clone(); n];
+                    let d = json!({ "c": coll, "plain": plain, "m": marked, "f": filler });
+                    match prop.as_str() {
+                        "C13" => {
+                            ctx.check("sweep:twins:filter", &json!({"filter": [{"var": "c"}, {"===": [{"var": ""}, marked]}]}), &d);
+                            ctx.check("sweep:twins:filter:truthiness", &json!({"filter": [{"var": "c"}, {"var": ""}]}), &d);
+                            ctx.check("sweep:twins:map", &json!({"map": [{"var": "c"}, {"===": [{"var": ""}, filler]}]}), &d);
+                        }
+                        "C14" => {
+                            for (k, pred) in [("all", json!({"===": [{"var": ""}, filler]})), ("some", json!({"===": [{"var": ""}, marked]})), ("none", json!({"===": [{"var": ""}, marked]})), ("all", json!({"var": ""})), ("some", json!({"var": ""})), ("none", json!({"!": [{"var": ""}]}))] {
+                                ctx.check(&format!("sweep:twins:{}", k), &al::op(k, vec![json!({"var": "c"}), pred.clone()]), &d);
+                                if n <= 40 {
+                                    ctx.check(&format!("sweep:twins:{}:literal", k), &al::op(k, vec![json!(coll), pred]), &Value::Null);
+                                }
+                            }
+                        }
+                        _ => {
+                            ctx.check("sweep:twins:in", &json!({"in": [{"var": "m"}, {"var": "c"}]}), &d);
+                            ctx.check("sweep:twins:in:absent", &json!({"in": [{"var": "m"}, {"var": "plain"}]}), &d);
+                            ctx.check("sweep:twins:in:filler", &json!({"in": [{"var": "f"}, {"var": "c"}]}), &d);
+                            if n <= 40 {
+                                ctx.check("sweep:twins:in:literal", &json!({"in": [marked, plain]}), &Value::Null);
+                                ctx.check("sweep:twins:in:literal", &json!({"in": [[marked], [[filler], coll, "x"]]}), &Value::Null);
+                            }
+                        }
+                    }
+                }
+            }
         }
         for p in positions(n) {
             ctx.edge();
@@ -440,10 +481,15 @@ pub fn confusable_probes(ctx: &mut Ctx) {
                     ctx.check("confusable:number", &json!({"%": [7, a]}), &null);
                 }
                 "C02" => {
-                    ctx.check("confusable:literal", &json!(a), &dv);
-                    ctx.check("confusable:literal", &json!([a, b]), &dv);
-                    ctx.check("confusable:literal", &json!({a.clone(): b, "k": a}), &dv);
-                    ctx.check("confusable:literal", &json!({"if": [true, a, b]}), &dv);
+                    // against data in which the look-alike spelling names something else
+                    for d in [dv.clone(), json!({"a": "A!", "b": "B!", "pair": ["P0", "P1"], "o": {"a": "OA"}, "1": "one", "0": "zero"}), json!(["x", "y"]), json!("st")] {
+                        ctx.check("confusable:literal", &json!(a), &d);
+                        ctx.check("confusable:literal", &json!([a, b]), &d);
+                        ctx.check("confusable:literal", &json!({a.clone(): b, "k": a}), &d);
+                        ctx.check("confusable:literal", &json!({"if": [true, a, b]}), &d);
+                        ctx.check("confusable:literal", &json!({"cat": ["<", a, ">"]}), &d);
+                        ctx.check("confusable:literal", &json!({"merge": [[a], b]}), &d);
+                    }
                 }
                 "C05" | "C06" => {
                     ctx.check("confusable:truthiness", &json!({"!!": [a]}), &null);
@@ -557,6 +603,168 @@ pub fn effects_probes(ctx: &mut Ctx) {
         if !al::is_operation_shaped(v) {
             ctx.check("effects:only-log-lines:literal", &json!({"*": [v, 1]}), &Value::Null);
             ctx.check("effects:only-log-lines:literal", &json!({"<": [v, "0x10"]}), &Value::Null);
+        }
+    }
+}
+
+/// An ill-formed operation (any operator with any rejected operand count, bracketed or bare) in every position
+/// that IS evaluated - conditions, selected branches, operands of and / or up to the deciding one, predicates
+/// and per-element expressions over non-empty collections, negations: the whole rule is an error, never a
+/// value made up from the malformed part (R decides; positions that are not reached stay unjudged there).
+pub fn illformed_probes(ctx: &mut Ctx) {
+    let prop = ctx.prop.clone();
+    if !["C05", "C06", "C13", "C14"].contains(&prop.as_str()) {
+        return;
+    }
+    let d = json!({"xs": [1, 0, 2], "s": "ab", "t": 1, "f": 0});
+    for b in crate::spaces::c03::illformed() {
+        if !ctx.mine() {
+            continue;
+        }
+        ctx.edge();
+        let rules: Vec<Value> = match prop.as_str() {
+            "C05" | "C06" => vec![
+                json!({"if": [b, "then", "else"]}), json!({"if": [{"var": "f"}, "a", b, "b", "c"]}), json!({"if": [{"var": "t"}, b, "else"]}), json!({"if": [{"var": "f"}, "then", b]}),
+                json!({"?:": [b, 1, 2]}), json!({"and": [b, 1]}), json!({"and": [{"var": "t"}, b]}), json!({"or": [b, 1]}), json!({"or": [{"var": "f"}, b]}),
+                json!({"!": [b]}), json!({"!!": [b]}), json!({"!": b}), json!({"if": [{"!": [b]}, 1, 2]}), json!({"if": [{"!!": b}, 1, 2]}),
+                json!({"if": [{"and": [{"var": "t"}, b]}, 1, 2]}), json!({"if": [b]}), json!({"and": [b]}), json!({"or": [b]}),
+            ],
+            "C13" => vec![
+                json!({"map": [{"var": "xs"}, b]}), json!({"filter": [{"var": "xs"}, b]}), json!({"reduce": [{"var": "xs"}, b, 0]}), json!({"map": [[1], b]}),
+                json!({"map": [b, 1]}), json!({"filter": [b, true]}), json!({"reduce": [[1], 1, b]}), json!({"map": [[b], 1]}),
+                json!({"filter": [{"var": "xs"}, {"!": [b]}]}), json!({"map": [{"var": "xs"}, {"if": [{"var": ""}, b, "zero"]}]}),
+            ],
+            _ => vec![
+                json!({"all": [{"var": "xs"}, b]}), json!({"some": [{"var": "xs"}, b]}), json!({"none": [{"var": "xs"}, b]}), json!({"all": [{"var": "s"}, b]}),
+                json!({"some": [[1], b]}), json!({"all": [b, true]}), json!({"some": [[b], true]}), json!({"none": [[0, b], {"var": ""}]}), json!({"all": [[1, b], {"var": ""}]}),
+                json!({"some": [{"var": "xs"}, {"!": [b]}]}), json!({"all": [{"var": "xs"}, {"or": [{"var": ""}, b]}]}),
+            ],
+        };
+        for r in rules {
+            ctx.check("ill-formed:evaluated-position", &r, &d);
+        }
+    }
+}
+
+/// Per-element expressions and predicates that read the current element WITHOUT `var` - through `missing` /
+/// `missing_some` - alone and under negation, selection and comparison, over collections whose elements give
+/// different verdicts (first kept / first dropped, verdicts alternating, all alike), and constant predicates
+/// next to them: a predicate is evaluated against every element, whether or not it "looks" element-dependent.
+pub fn element_reader_probes(ctx: &mut Ctx) {
+    let prop = ctx.prop.clone();
+    if !["C06", "C13", "C14"].contains(&prop.as_str()) {
+        return;
+    }
+    let colls = [
+        json!([{"p": 1}, {"q": 2}, {"p": 3}, {}]), json!([{"q": 2}, {"p": 1}]), json!([{}, {}, {"p": null}]), json!([{"p": 0}, {"p": ""}]), json!([["x"], [], ["y", "z"]]),
+        json!([{"p": 1, "q": 1}, {"p": 1}, {"q": 1}, {}, {"p": 1, "q": 1}]), json!(["ab", ""]), json!([1]),
+    ];
+    let preds = [
+        json!({"missing": ["p"]}), json!({"missing": "p"}), json!({"missing": ["p", "q"]}), json!({"missing": [0]}), json!({"missing": [1]}), json!({"missing_some": [1, ["p", "q"]]}), json!({"missing_some": [2, ["p", "q"]]}),
+        json!({"!": {"missing": ["p"]}}), json!({"!!": [{"missing": ["p"]}]}), json!({"if": [{"missing": ["p"]}, 0, 1]}), json!({"in": ["q", {"missing": ["p", "q"]}]}),
+        json!({"==": [{"cat": [{"missing": ["p", "q"]}]}, "q"]}), json!({"and": [true, {"missing": ["p"]}]}), json!({"or": [false, {"missing_some": [1, ["p"]]}]}),
+        json!({"merge": [{"missing": ["p"]}, {"missing": ["q"]}]}), json!({"missing": []}), json!({"missing": [[]]}),
+    ];
+    for c in &colls {
+        if !ctx.mine() {
+            continue;
+        }
+        for p in &preds {
+            ctx.edge();
+            let d = json!({"c": c, "p": "outer-p"});
+            let hosts: &[&str] = match prop.as_str() {
+                "C13" => &["map", "filter"],
+                "C14" => &["all", "some", "none"],
+                _ => &["filter", "all", "some", "none"],
+            };
+            for h in hosts {
+                ctx.check("element-read-by-missing:V", &al::op(h, vec![json!({"var": "c"}), p.clone()]), &d);
+                ctx.check("element-read-by-missing:L", &al::op(h, vec![c.clone(), p.clone()]), &d);
+            }
+            if prop == "C13" {
+                ctx.check("element-read-by-missing:reduce", &json!({"reduce": [{"var": "c"}, {"merge": [{"var": "accumulator"}, {"missing": ["current.p", "accumulator.0"]}]}, []]}), &d);
+            }
+        }
+    }
+}
+
+/// Pipelines: an iteration operator (or merge / if) as the COLLECTION argument of another one. The inner call
+/// runs to completion first - its value is the outer collection - so the outer expression never sees an
+/// element the inner one dropped or before the inner one changed it, errors and `log` lines come in that
+/// order, and an outer expression that fails only on dropped elements does not fail.
+pub fn pipeline_probes(ctx: &mut Ctx) {
+    let prop = ctx.prop.clone();
+    if !["C13", "C14"].contains(&prop.as_str()) {
+        return;
+    }
+    let cur = json!({"var": ""});
+    let colls = [json!([1, 0, 3, 4]), json!([0]), json!([]), json!([2, "a", 0]), json!(["ab", 7, "cd"]), json!([0, 0, 5])];
+    let inners: Vec<(&str, Value)> = vec![
+        ("filter", json!({"!==": [cur, 0]})), ("filter", json!({"log": cur})), ("filter", json!({"!==": [cur, 7]})), ("filter", cur.clone()), ("filter", json!(true)), ("filter", json!(false)),
+        ("map", json!({"+": [cur, 1]})), ("map", json!({"log": cur})), ("map", json!({"if": [cur, cur, "zero"]})), ("map", json!([cur])),
+    ];
+    let outers: Vec<Value> = vec![
+        json!({"/": [12, cur]}), json!({"log": {"cat": ["p", cur]}}), json!({"substr": [cur, 0, 1]}), json!({"-": [cur, 1]}), json!({"in": [1, cur]}), json!({"<": [cur, 4]}), cur.clone(), json!({"/": [1, {"-": [cur, 1]}]}),
+    ];
+    let hosts: &[&str] = if prop == "C13" { &["map", "filter", "reduce"] } else { &["all", "some", "none"] };
+    for c in &colls {
+        if !ctx.mine() {
+            continue;
+        }
+        let d = json!({ "xs": c });
+        for (ik, f) in &inners {
+            for g in &outers {
+                ctx.edge();
+                for src in [json!({"var": "xs"}), c.clone()] {
+                    let inner = al::op(ik, vec![src, f.clone()]);
+                    for h in hosts {
+                        let r = if *h == "reduce" {
+                            json!({"reduce": [inner, {"cat": [{"var": "accumulator"}, rewrite_current(g)]}, ""]})
+                        } else {
+                            al::op(h, vec![inner.clone(), g.clone()])
+                        };
+                        ctx.check("pipeline", &r, &d);
+                    }
+                }
+                // three stages, and the inner collection wrapped by merge / if
+                ctx.check("pipeline:3", &al::op(hosts[0], vec![json!({"map": [al::op(ik, vec![json!({"var": "xs"}), f.clone()]), cur]}), g.clone()]), &d);
+                ctx.check("pipeline:merge", &al::op(hosts[0], vec![json!({"merge": [al::op(ik, vec![json!({"var": "xs"}), f.clone()])]}), g.clone()]), &d);
+                ctx.check("pipeline:if", &al::op(hosts[0], vec![json!({"if": [true, al::op(ik, vec![json!({"var": "xs"}), f.clone()])]}), g.clone()]), &d);
+            }
+        }
+    }
+}
+
+/// Numbers with the longest JSON texts (see `alphabet::long_number_texts`) through every operator that hands a
+/// value on, renders it or converts it: what comes out is the same double, digit for digit.
+pub fn number_text_probes(ctx: &mut Ctx) {
+    let prop = ctx.prop.clone();
+    if !["C02", "C05", "C07", "C08", "C09", "C10", "C11", "C13", "C14", "C15"].contains(&prop.as_str()) {
+        return;
+    }
+    let null = Value::Null;
+    for v in al::long_number_texts() {
+        if !ctx.mine() {
+            continue;
+        }
+        ctx.edge();
+        let text = json!(v.to_string());
+        let d = json!({"v": v, "vs": [v, 0, v], "t": text});
+        let x = json!({"var": "v"});
+        let rules: Vec<Value> = match prop.as_str() {
+            "C02" => vec![v.clone(), json!([v, [v]]), json!({"k": v, "j": [v]}), json!({"if": [true, [v]]})],
+            "C05" => vec![json!({"if": [true, v, 0]}), json!({"if": [x, x, 0]}), json!({"or": [v, 1]}), json!({"and": [1, x]}), json!({"?:": [0, 1, x]}), json!({"or": [0, x]})],
+            "C07" => vec![json!({"==": [v, text]}), json!({"==": [[v], text]}), json!({"==": [x, {"var": "t"}]}), json!({"!=": [[v, 0, v], {"cat": [{"var": "vs"}]}]}), json!({"==": [x, x]}), json!({"==": [text, [[x]]]})],
+            "C08" => vec![json!({"===": [v, x]}), json!({"===": [x, text]}), json!({"!==": [x, {"*": [x, 1]}]}), json!({"===": [{"var": "vs.0"}, {"var": "vs.2"}]})],
+            "C09" => vec![json!({"<=": [v, text]}), json!({">=": [[v], x]}), json!({"<": [x, x]}), json!({"<=": [x, {"var": "t"}, x]}), json!({">": [text, v]})],
+            "C10" => vec![json!({"*": [v, 1]}), json!({"+": [x]}), json!({"+": [text]}), json!({"-": [x]}), json!({"-": [{"-": [x]}]}), json!({"max": [x]}), json!({"min": [text, x]}), json!({"/": [x, 1]}), json!({"+": [x, 0]}), json!({"*": [text, "1"]}), json!({"%": [x, x]})],
+            "C11" => vec![x.clone(), json!({"var": "vs.2"}), json!({"var": ["nope", v]}), json!({"var": ["vs.-1"]}), json!({"var": ""})],
+            "C13" => vec![json!({"map": [{"var": "vs"}, {"var": ""}]}), json!({"filter": [[v, 0], {"var": ""}]}), json!({"reduce": [{"var": "vs"}, {"max": [{"var": "current"}, {"var": "accumulator"}]}, v]}), json!({"reduce": [[1], {"var": "accumulator"}, x]})],
+            "C14" => vec![json!({"all": [{"var": "vs"}, {"!==": [{"var": ""}, text]}]}), json!({"some": [[v], {"===": [{"var": ""}, x]}]}), json!({"none": [{"var": "vs"}, {"===": [{"var": ""}, v]}]})],
+            _ => vec![json!({"merge": [v, [v], x]}), json!({"in": [v, {"var": "vs"}]}), json!({"in": [x, [text, 0]]}), json!({"in": [text, {"cat": ["<", x, ">"]}]}), json!({"in": [x, [[v], v]]})],
+        };
+        for r in rules {
+            ctx.check("long-number-text", &r, if prop == "C02" { &null } else { &d });
         }
     }
 }
